@@ -24,6 +24,7 @@ return;
 write_hinted_name / write_unhinted_name is dominated by the failed `compression_mode == Disabled` test, and
 write_compressed_unhinted_name has no other caller;
 (d) when walking a prior name, a pointer is followed only if it is strictly smaller than the current position.
+(c') in case-preserving mode no pointer is emitted from a hint (hints promise equality only up to ASCII case).
 Not decided: that the heuristic scan lines labels up correctly for all name sets (value-level).
 """
 ASSUMPTIONS = ['every CFG path is assumed feasible', 'classification table frozen from RFC 1035 §3.3 / RFC 2782 / RFC 3597 §4']
@@ -47,6 +48,26 @@ def component_types(fn):
     if arr is None:
         return None
     return [locs.get((arr[0], l)) for l in arr[1]]
+
+
+def check_case_preserving(R, F):
+    """Hints only promise equality ignoring ASCII case: in case-preserving mode no pointer may be emitted from a hint."""
+    wh = W + 'write_hinted_name'
+    fn = F.fn(wh)
+    k = 0
+    for b, t in fn.calls():
+        n = callee_name(t)
+        if not n.endswith('try_push_u16'):
+            continue
+        a = paths.show_operand(fn, t['args'][1])
+        if not a.startswith('BitOr(49152_u16,'):
+            continue
+        k += 1
+        g = paths.dom_guards(fn, b)
+        ok = any(re.match(r'^CompressionMode::eq\(arg1\.compression_mode,CompressionMode::CasePreserving\) in \[0\]$', x) or re.match(r'^PartialEq::ne\(arg1\.compression_mode,CompressionMode::CasePreserving\) not in \[0\]$', x) for x in g)
+        R.require(ok, 'case-preserving', '%s|hinted-emit#%d' % (fn.gpath, k), fn.where(b), 'a hint is turned into a pointer only outside case-preserving mode',
+                  'a compression pointer is emitted from a hint in case-preserving mode: the hinted prior name is only guaranteed equal ignoring case, so the decoded name may differ in case from the name given')
+    R.floor('case-preserving', 4)
 
 
 def check(R, F):
@@ -187,6 +208,7 @@ def check(R, F):
             continue
         R.require(not_disabled(paths.dom_guards(fn, b)), 'disabled', '%s|emit#%d' % (fn.gpath, k), fn.where(b), 'pointer emitted only when compression is not disabled', 'a pointer can be emitted with compression disabled')
     R.floor('disabled', 10)
+    check_case_preserving(R, F)
 
     # ---- (d) strictly backwards when following pointers
     mv = None
